@@ -808,6 +808,20 @@ func ruleC11Rooted(p *Prog, a *Anchors, r *Report) {
 	if n == 0 {
 		r.Bad("none", "-", "no loader joins names with the referring template's directory: the rule no longer sees the code it was written for")
 	}
+	// siblings agree: every loader of the package resolves relative to the referring template. One that ignores its
+	// `base` parameter gives `{% include "y.html" %}` in a/x.html the root's y.html where the others give a/y.html.
+	for _, f := range p.inPkgFuncsSorted(p.allFuncSet()) {
+		if f.Blocks == nil || f.Name() != "Abs" || !implementsLoader(p, a, f) || len(f.Params) < 3 {
+			continue
+		}
+		key := p.FuncName(f) + ":uses-referrer"
+		base := f.Params[1]
+		if len(*base.Referrers()) == 0 {
+			r.Bad(key, p.Pos(f.Pos()), "%s never reads its `base` parameter: names are not resolved relative to the referring template, unlike in the other loaders ({%% include \"y.html\" %%} in a/x.html gets the root's y.html, and a file that only exists next to the referrer cannot be included)", p.FuncName(f))
+		} else {
+			r.OK(key, p.Pos(f.Pos()), "the referring template takes part in the resolution")
+		}
+	}
 }
 
 // ruleC11StaticName: the include tag compiles its target at compile time only when the name is a literal — the whole
